@@ -543,6 +543,22 @@ pub fn gen_stream(rng: &mut Rng, cfg: &GenCfg, tag_prefix: &str) -> Vec<u8> {
     if cfg.max_reqs >= 6 && rng.chance(1, 150) {
         nreq = rng.range(40, 400);
     }
+    // volley: dozens of *minimal* requests back to back, so that a single receive of a full window
+    // completes far more requests than any per-call bound someone might think generous (17..56 in
+    // 1024 bytes, 3 in 64)
+    if cfg.max_reqs >= 6 && rng.chance(1, 120) {
+        let n = rng.range(17, 120);
+        let mut s = Vec::new();
+        for k in 0..n {
+            match rng.below(4) {
+                0 => s.extend_from_slice(format!("GET /{}r{} HTTP/1.1\r\n\r\n", tag_prefix, k).as_bytes()),
+                1 => s.extend_from_slice(b"GET / HTTP/1.0\r\n\r\n"),
+                2 => s.extend_from_slice(format!("PUT /{}r{} HTTP/1.1\r\nContent-Length: 1\r\n\r\n{}", tag_prefix, k, (b'a' + (k % 26) as u8) as char).as_bytes()),
+                _ => s.extend_from_slice(b"PATCH /p HTTP/1.1\r\n\r\n"),
+            }
+        }
+        return s;
+    }
     let corrupt_at = if rng.chance(cfg.corrupt, 1000) { Some(rng.below(nreq)) } else { None };
     let edge_at = if cfg.allow_big && rng.chance(1, 5) { Some(rng.below(nreq)) } else { None };
     let mut s = Vec::new();
